@@ -67,7 +67,7 @@ with load_signatures(os.path.join(SRC, 'queries', 'query-signatures.gs')) as _q:
 QSIGS = None
 
 OPS = ['query', 'add-taxon+flush', 'edit-genome+flush', 'edit+autoflush-query', 'commit', 'delete+flush', 'inspect-signatures', 'distances+tree', 'failing-call',
-       'edit-taxon-threshold', 'rollback', 'reopen']
+       'edit-taxon-threshold', 'rollback', 'reopen', 'direct-sql-write-abandoned']
 WRITE_WORDS = ('INSERT', 'UPDATE', 'DELETE', 'REPLACE', 'CREATE', 'DROP', 'ALTER', 'VACUUM', 'REINDEX')
 
 
@@ -185,6 +185,22 @@ def _step(c, op, k):
     elif op == 11:
         c.close()
         c.open()
+    elif op == 12:
+        # A statement sent past the unit of work (bulk UPDATE through Session.execute / Query.update / the raw connection) and never
+        # committed.  It legitimately reaches the engine inside the session's transaction, so it is exempt from the statement monitor;
+        # what the property demands is that nothing of it reaches the files - now, after a rollback, after closing.
+        import sqlalchemy as sa
+        before = len(c.dml)
+        try:
+            if k % 3 == 0:
+                s.execute(sa.update(Genome).values(description=f'bulk {k}'))
+            elif k % 3 == 1:
+                s.query(Taxon).update({Taxon.name: f'bulk taxon {k}'}, synchronize_session=False)
+            else:
+                s.connection().execute(sa.text('UPDATE genomes SET description = :d'), dict(d=f'raw {k}'))
+        except Exception:   # noqa  (an implementation that refuses such statements is fine)
+            pass
+        del c.dml[before:]
     return None
 
 
